@@ -1,6 +1,7 @@
 package main
 
 import (
+	"runtime"
 	"fmt"
 	"os"
 	"os/exec"
@@ -172,7 +173,7 @@ func init() {
 		c := client.NewWS(client.WSConnectionOptions{Factory: f, ConnectionOptions: ws.ConnectionOptions{CloseDeadline: 50 * time.Millisecond}})
 		client.VerifAt = nil
 		var wg sync.WaitGroup
-		var panics int32
+		var panics, recErrs int32
 		for g := 0; g < 5; g++ {
 			wg.Add(1)
 			go func(g int) {
@@ -190,11 +191,38 @@ func init() {
 					case 1:
 						_ = c.Disconnect()
 					case 2:
-						_ = c.Reconnect()
+						// the factory never fails here: a Reconnect has nothing to fail on, whatever runs beside it
+						if err := c.Reconnect(); err != nil {
+							atomic.AddInt32(&recErrs, 1)
+						}
 					case 3:
 						_ = c.SendRaw([]byte{0xc0})
 					default:
 						_ = c.Send(&protocol.Message{Tag: "t", Timestamp: 1, Record: map[string]interface{}{"k": "v"}})
+					}
+				}
+			}(g)
+		}
+		wg.Wait()
+		// second phase: nothing but lifecycle calls, all at once — Reconnect is one atomic step (close the old session,
+		// open the new one), so with a factory that never fails it never has a reason to fail
+		for g := 0; g < 5; g++ {
+			wg.Add(1)
+			go func(g int) {
+				defer wg.Done()
+				defer func() {
+					if p := recover(); p != nil {
+						atomic.AddInt32(&panics, 1)
+					}
+				}()
+				for j := 0; j < 25; j++ {
+					if g == 4 {
+						_ = c.Connect()
+						runtime.Gosched()
+						continue
+					}
+					if err := c.Reconnect(); err != nil {
+						atomic.AddInt32(&recErrs, 1)
 					}
 				}
 			}(g)
@@ -207,6 +235,10 @@ func init() {
 		if panics > 0 {
 			bad++
 			detail += " panic"
+		}
+		if recErrs > 0 {
+			bad++
+			detail += fmt.Sprintf(" reconnect-failed-%d-times-although-dial-and-setup-succeed(not-atomic:a-session-was-left-behind)", recErrs)
 		}
 		f.mu.Lock()
 		for _, cn := range f.conns {
